@@ -102,6 +102,9 @@ def _excel_cell_value(cell, datemode):
         result = str(xlrd.error_text_from_code.get(error_code, default_error_text))
     elif isinstance(cell.value, str):
         result = cell.value
+    elif cell.value is None:
+        # For example a string formula without a cached value.
+        result = ""
     else:
         result = str(cell.value)
         if (cell.ctype == xlrd.XL_CELL_NUMBER) and (result.endswith(".0")):
